@@ -40,6 +40,14 @@ def subst(v, env):
     return tuple(subst(x, env) for x in v)
 
 
+def is_position(c):
+    return (c['res'] or '').endswith('::position') and c['decl'] == 'core::iter::Iterator::position'
+
+
+def is_search(c):
+    return is_position(c) or c['res'] in ('core::option::Option::map', 'core::option::Option::or_else', 'core::option::Option::or')
+
+
 class Scan:
     """Normal form of an Option<usize> expression that searches self.inner for an active record: a list of segments
     (lo, hi) searched in order, each yielding the *absolute* index of the first active record in [lo, hi)."""
@@ -71,6 +79,33 @@ class Scan:
             return d['res'] == '<alloc::vec::Vec as core::ops::Deref>::deref' and subst(d['args'][0], env) == ('ref', INNER, False)
         return False
 
+    def inner_slice_iter(self, calls, v, env):
+        """v is `self.inner[n..].iter()` / `self.inner[..n].iter()`: (lo, hi, base) or None"""
+        if not (v[0] == 'call' and v[1] in calls and calls[v[1]]['res'] == 'core::slice::<impl [T]>::iter'):
+            return None
+        a = subst(calls[v[1]]['args'][0], env)
+        if not (a[0] == 'ref' and a[1][0] == 'deref' and a[1][1][0] == 'call' and a[1][1][1] in calls):
+            return None
+        ix = calls[a[1][1][1]]
+        if not ix['res'].endswith('core::ops::Index>::index'):
+            return None
+        base = subst(ix['args'][0], env)
+        whole = base == ('ref', INNER, False)
+        if not whole and base[0] == 'ref' and base[1][0] == 'deref' and base[1][1][0] == 'call' and base[1][1][1] in calls:
+            d = calls[base[1][1][1]]
+            whole = d['res'] == '<alloc::vec::Vec as core::ops::Deref>::deref' and subst(d['args'][0], env) == ('ref', INNER, False)
+        if not whole:
+            return None
+        rng = subst(ix['argvals'][1], env)
+        zero = ('const', 'usize', 0, '0_usize')
+        if rng[0] == 'agg' and 'RangeFrom' in str(rng[2]):
+            n = q.agg_field(rng, 'start')
+            return (n, LEN, n) if n is not None else None
+        if rng[0] == 'agg' and 'RangeTo' in str(rng[2]) and 'Inclusive' not in str(rng[2]):
+            n = q.agg_field(rng, 'end')
+            return (zero, n, zero) if n is not None else None
+        return None
+
     def raw_position(self, calls, c, env):
         """position(<iterator over inner>, is_active) -> (lo, hi, base): indices searched and what the result counts from"""
         it = c['derefs'][0] if c['derefs'][0] is not None else c['args'][0]
@@ -78,6 +113,9 @@ class Scan:
             raise Unreadable('the search predicate is not Member::is_active')
         if self.inner_iter(calls, it, env):
             return (('const', 'usize', 0, '0_usize'), LEN, ('const', 'usize', 0, '0_usize'))
+        sl = self.inner_slice_iter(calls, it, env)
+        if sl is not None:
+            return sl
         if it[0] == 'call' and it[1] in calls:
             ic = calls[it[1]]
             if ic['res'] == 'core::iter::Iterator::skip' and self.inner_iter(calls, ic['args'][0], env):
@@ -101,14 +139,14 @@ class Scan:
             raise Unreadable('search result is not a call: %s' % (v,))
         c = calls[v[1]]
         argv = lambda i: c['argvals'][i]
-        if c['res'] == 'core::iter::Iterator::position':
+        if is_position(c):
             lo, hi, base = self.raw_position(calls, c, env)
             if not q.is_const(base, 0):
                 raise Unreadable('an offset search (skip) whose result is not mapped back to an absolute index')
             return [(lo, hi)]
         if c['res'] == 'core::option::Option::map':
             src = c['args'][0]
-            if not (src[0] == 'call' and src[1] in calls and calls[src[1]]['res'] == 'core::iter::Iterator::position'):
+            if not (src[0] == 'call' and src[1] in calls and is_position(calls[src[1]])):
                 raise Unreadable('Option::map over something that is not a position() result')
             lo, hi, base = self.raw_position(calls, calls[src[1]], env)
             clo = argv(1)
@@ -136,6 +174,11 @@ class Scan:
                 return first + self.segs(ccalls, ps[0].ret, cenv)
             return first + self.segs(calls, snd, env)
         raise Unreadable('unrecognised search combinator %s' % c['res'])
+
+
+def is_single_option(calls, v):
+    """the tested Option already combines the forward scan with its fallback (or_else / or)"""
+    return v[0] == 'call' and v[1] in calls and calls[v[1]]['res'] in ('core::option::Option::or_else', 'core::option::Option::or')
 
 
 def cursor_now(p, upto):
@@ -234,16 +277,21 @@ def r3_r4_next(ctx, f, rep):
             continue
         shuf = [(i, e) for i, e in enumerate(p.events) if e['kind'] == 'call' and (e['res'] or e['decl']).endswith('::shuffle')]
         # the search = the Option whose discriminant decides between Some and None
-        opt = None
-        opt_at = None
+        # (the fallback may be spelled `a.or_else(|| b)` - one Option - or `match a { Some(p) => .., None => b }` - a chain of
+        # tests, all but the last of which found nothing)
+        tests = []
         for i, e in enumerate(p.events):
             if e['kind'] == 'cond':
                 t = q.option_test(f, p, e)
-                if t is not None:
-                    opt, known, opt_at = t[0], t[1], i
-        if opt is None:
+                if t is not None and t[0][0] == 'call' and t[0][1] in calls and is_search(calls[t[0][1]]):
+                    tests.append((i, t[0], t[1]))
+        if not tests:
             rep.violation('C14-R3', b.nname, 'no-search', 'no Option-valued search result is tested on this path')
             continue
+        if any(k != 'None' for _, _, k in tests[:-1]):
+            rep.violation('C14-R3', b.nname, 'search-after-found', 'a further search is made after one already found a record')
+            continue
+        opt_at, opt, known = tests[-1]
         first_search = min([i for i, e in enumerate(p.events) if e['kind'] == 'call' and
                             e['res'] in ('core::iter::Iterator::position', 'core::iter::Iterator::skip')] or [opt_at])
         wr_before = [(i, e) for i, e in enumerate(p.events[:first_search]) if e['kind'] == 'write' and e['place'] == CURSOR]
@@ -265,7 +313,9 @@ def r3_r4_next(ctx, f, rep):
         cur = cursor_now(p, first_search)
         # --- the search itself
         try:
-            segs = sc.segs(calls, opt, {'vals': [], 'refs': []})
+            segs = []
+            for _, E, _k in tests:
+                segs += sc.segs(calls, E, {'vals': [], 'refs': []})
         except Unreadable as e:
             rep.violation('C14-R3', b.nname, 'search-unreadable', 'the search of Members::next can no longer be read as a '
                           'cyclic first-active scan: %s' % e, site=p.events[opt_at]['span'])
@@ -277,6 +327,10 @@ def r3_r4_next(ctx, f, rep):
             if zero(cur):
                 # after a reset the forward scan already covers everything; a second segment may only be empty / redundant
                 ok = all(zero(lo) and (same_cursor(hi, cur) or hi == LEN) for lo, hi in rest)
+            elif known == 'Some':
+                # a path that found its record may have stopped after the forward scan (match-form fallback): a prefix of the
+                # cyclic scan; the paths that found nothing must have searched all of it (below)
+                ok = len(rest) <= 1 and all(zero(lo) and same_cursor(hi, cur) for lo, hi in rest)
             else:
                 ok = len(rest) == 1 and zero(rest[0][0]) and same_cursor(rest[0][1], cur)
         rep.check(ok, 'C14-R3', b.nname, 'the search is [cursor, len) then [0, cursor) with the is_active predicate',
